@@ -116,6 +116,49 @@ def build(seed, n):
                     shutil.rmtree(d, ignore_errors=True)
 
             convs.append(("gen:{}".format(i), gen_conv))
+        if i % 2 == 1:
+            # hand-written argparse functions whose options use type names beyond the scalar ones (dict, list, Path, ...),
+            # and hand-written settings classes that mention the same type names: what either converts to must not
+            # depend on which of them was converted first
+            tnames = rng.sample(["dict", "list", "Path", "set", "bytes", "tuple", "object"], 3)
+            opts_src = []
+            for j, tn in enumerate(tnames):
+                kw = ["type={}".format(tn), "help='the zq_{} option'".format(tn)]
+                if rng.random() < 0.6:
+                    kw.append("required=True")
+                if rng.random() < 0.3:
+                    kw.append("default={}".format({"dict": "{}", "list": "[]", "set": "None", "bytes": "b''", "tuple": "()", "Path": "None", "object": "None"}[tn]))
+                opts_src.append("    argument_parser.add_argument('--opt_{}', {})".format(tn, ", ".join(kw)))
+            ap_src = ("def set_cli_args(argument_parser):\n    \"\"\"\n    Set CLI arguments\n\n    :param argument_parser: argument parser\n"
+                      "    :type argument_parser: ```ArgumentParser```\n\n    :returns: argument_parser\n    :rtype: ```ArgumentParser```\n    \"\"\"\n"
+                      "    argument_parser.description = 'zq user parser {}'\n".format(i) + "\n".join(opts_src) + "\n    return argument_parser\n")
+            cls_src = "class Settings{}(object):\n    \"\"\"\n    The zq settings\n\n".format(i) + \
+                      "".join("    :cvar attr_{0}: the zq_{0} attribute\n".format(tn) for tn in tnames) + "    \"\"\"\n\n" + \
+                      "".join("    attr_{0}: {0} = {1}\n".format(tn, {"dict": "{}", "list": "[]", "set": "None", "bytes": "b''", "tuple": "()", "Path": "None", "object": "None"}[tn])
+                              for tn in tnames)
+
+            def user_argparse(src=ap_src):
+                from doctrans import parse
+
+                return repr(ir_jsonable(parse.argparse_ast(ast.parse(src).body[0])))
+
+            def user_class(src=cls_src):
+                from doctrans import emit, parse
+                from doctrans.source_transformer import to_code
+
+                ir_ = parse.class_(ast.parse(src).body[0])
+                out = []
+                for em in (emit.argparse_function, emit.class_, emit.function):
+                    from copy import deepcopy
+
+                    try:
+                        out.append(to_code(em(deepcopy(ir_))))
+                    except Exception as e:
+                        out.append("EXC " + type(e).__name__)
+                return "\n".join(out)
+
+            convs.append(("user.argparse_types:{}".format(i), user_argparse))
+            convs.append(("user.class_types:{}".format(i), user_class))
         if i % 3 == 0:
             c = gen_class_with_init(rng)
 
